@@ -250,3 +250,215 @@ Proof.
   - intros Hstep Hlog. pose proof (end_block_bal_log nl names s) as [_ Hl]. rewrite Hstep in Hl. simpl in Hl.
     rewrite Hl in Hlog. by apply list_neq_cons in Hlog.
 Qed.
+
+(* ---------- beneficiary ---------- *)
+
+Theorem beneficiary_partial E s o s' r n a z :
+  step E s o = (s', r) -> log s' = Minted n a z :: log s -> trig_locker s o = false ->
+  exists t, ongoing s !! n = Some t /\ a = t_owner t.
+Proof.
+  intros Hstep Hlog Htr.
+  destruct (mint_gated _ _ _ _ _ _ _ _ Hstep Hlog) as (v & idx & k & t & -> & _ & Ht & Hty & _).
+  exists t. split; [done|]. simpl in Htr. rewrite Ht, Hty in Htr. simpl in Htr.
+  destruct (N.eqb_spec a (t_owner t)); [done|discriminate].
+Qed.
+
+(* ---------- redeem: the debit and the creation of the tracker are one step ---------- *)
+
+Theorem redeem_debits E s a x s' :
+  do_redeem E s a x = (s', Ok) ->
+  exists amt, x_redeem (e_tx E x) = Some amt /\
+    let n := x_name (e_tx E x) in
+    ongoing s !! n = None /\ passed s !! n = None /\ failed s !! n = None /\
+    ongoing s' !! n = Some (new_tracker T_REDEEM a x n (e_wits E)) /\
+    amt <= balof (bal s) a /\
+    bal s' = credit (credit (bal s) a (- amt)) (e_supply E) (- amt) /\
+    log s' = Debited n a amt :: log s.
+Proof.
+  unfold do_redeem. destruct (x_redeem (e_tx E x)) as [amt|]; [|done].
+  destruct (balof (bal s) a - amt <? 0) eqn:H1; [done|].
+  destruct (balof (credit (bal s) a (- amt)) (e_supply E) - amt <? 0) eqn:H2; [done|].
+  destruct (has (ongoing s) _) eqn:Ho; simpl; [done|]. destruct (has (failed s) _) eqn:Hf; simpl; [done|].
+  destruct (has (passed s) _) eqn:Hp; simpl; [done|]. intros [= <-]. exists amt. simpl.
+  apply has_false in Ho, Hf, Hp. apply Z.ltb_ge in H1.
+  repeat split; try done; try lia. by rewrite lookup_insert.
+Qed.
+
+(* a failed handler changes nothing; a successful one other than redeem debits nobody *)
+Lemma redeem_fail_noop E s a x s' r : do_redeem E s a x = (s', r) -> r <> Ok -> s' = s.
+Proof. unfold do_redeem. repeat case_match; intros [= <- <-]; done. Qed.
+
+(* ---------- the supply counter ---------- *)
+
+Lemma tot_fresh (b : gmap acct Z) a v : b !! a = None -> tot (<[a := v]> b) = v + tot b.
+Proof.
+  intros Hb. unfold tot.
+  rewrite (map_fold_insert_L (fun _ v acc => v + acc) 0 a v b); [done|intros; lia|done].
+Qed.
+
+Lemma tot_insert (b : gmap acct Z) a v : tot (<[a := v]> b) = tot b - balof b a + v.
+Proof.
+  unfold balof. destruct (b !! a) as [x|] eqn:Hb; simpl.
+  - rewrite <- (insert_delete_insert b a v).
+    rewrite tot_fresh by (by rewrite lookup_delete).
+    rewrite <- (insert_delete b a x Hb) at 2.
+    rewrite tot_fresh by (by rewrite lookup_delete). lia.
+  - rewrite tot_fresh by done. lia.
+Qed.
+
+Lemma tot_credit b a z : tot (credit b a z) = tot b + z.
+Proof. unfold credit. rewrite tot_insert. lia. Qed.
+
+Theorem supply_step E s o s' r :
+  supply_ok E s -> trig_supply E s o = false -> step E s o = (s', r) -> supply_ok E s'.
+Proof.
+  unfold supply_ok. intros Hok Htr.
+  destruct o as [snd x|snd x|n l v idx b|f t0 amt|nl names]; simpl in *.
+  - unfold do_lock. repeat case_match; intros [= <- _]; done.
+  - apply N.eqb_neq in Htr. unfold do_redeem. repeat case_match; intros [= <- _]; try done. simpl.
+    rewrite !tot_credit, !balof_credit. rewrite decide_True by done. rewrite decide_False by done. lia.
+  - apply orb_false_iff in Htr as [Hl Hown]. apply N.eqb_neq in Hl.
+    intros Hstep. apply report_cases in Hstep as [->|(t & t' & Ht & _ & _ & Hav & _ & Hsh)]; [done|].
+    rewrite Ht in Hown. apply N.eqb_neq in Hown.
+    apply add_vote_fields in Hav as (_ & _ & _ & _ & _ & Ho & _).
+    inversion Hsh; subst; simpl; try done.
+    + rewrite !tot_credit, !balof_credit. rewrite decide_True by done. rewrite decide_False by done. lia.
+    + rewrite !tot_credit, !balof_credit. rewrite decide_True by done. rewrite decide_False by congruence. lia.
+  - apply orb_false_iff in Htr as [Hf Ht]. apply N.eqb_neq in Hf, Ht.
+    unfold do_transfer. repeat case_match; intros [= <- _]; try done. simpl.
+    rewrite !tot_credit, !balof_credit. rewrite !decide_False by done. lia.
+  - intros Hstep. pose proof (end_block_bal_log nl names s) as [Hb _]. rewrite Hstep in Hb. simpl in Hb. by rewrite Hb.
+Qed.
+
+Theorem supply_run E ops : forall s, supply_ok E s -> supply_guarded E s ops -> supply_ok E (run E s ops).
+Proof.
+  induction ops as [|o r IH]; intros s Hok Hg; [done|]. simpl in *. destruct Hg as [Htr Hg].
+  apply IH; [|done]. destruct (step E s o) as [s' out] eqn:Hstep. simpl. by eapply supply_step.
+Qed.
+
+(* ---------- the shape of one block-end iteration ---------- *)
+
+Lemma transition_cases nl s n s' r :
+  transition nl s n = (s', r) ->
+  s' = s \/
+  exists t, ongoing s !! n = Some t /\
+    ((exists X, (t_state t = S_NEW /\ X = S_BUSYBROADCASTING \/
+                 t_state t = S_BUSYBROADCASTING /\ X = S_BUSYFINALIZING \/
+                 t_state t = S_BUSYFINALIZING /\ X = S_FINALIZED /\ finalizedb t = true) /\
+                s' = upd_ongoing s (<[n := set_state t X]> (ongoing s))) \/
+     (t_state t = S_RELEASED /\ s' = move_to_passed s n t) \/
+     (t_state t = S_FAILED /\ s' = move_to_failed s n t)).
+Proof.
+  unfold transition. destruct (ongoing s !! n) as [t|] eqn:Ht; [|intros [= <- _]; by left].
+  repeat (match goal with |- context [if ?c then _ else _] => destruct c eqn:? end);
+    intros [= <- _]; try (by left); right; exists t; (split; [done|]);
+    repeat match goal with H : (_ =? _) = true |- _ => apply Z.eqb_eq in H end.
+  all: try (left; eexists; split; [|reflexivity]; tauto).
+  all: try (right; left; done).
+  all: try (right; right; done).
+Qed.
+
+(* ---------- at most one mint per external transaction name ---------- *)
+
+Definition mint_inv (s : state) : Prop :=
+  forall n, n ∈ minted_names (log s) ->
+    (exists t, ongoing s !! n = Some t /\ t_state t = S_RELEASED /\ finalizedb t = true) \/
+    (ongoing s !! n = None /\ is_Some (passed s !! n)).
+
+Lemma mint_inv_transition nl s n s' r : mint_inv s -> transition nl s n = (s', r) -> mint_inv s'.
+Proof.
+  intros Hinv Htr.
+  pose proof (transition_bal_log nl s n) as [_ Hlog]. rewrite Htr in Hlog. simpl in Hlog.
+  apply transition_cases in Htr as [->|(t & Ht & Hc)]; [done|].
+  intros m Hm. rewrite Hlog in Hm. specialize (Hinv m Hm).
+  destruct (decide (m = n)) as [->|Hne].
+  - destruct Hinv as [(t0 & Ht0 & Hst & Hfin)|[Hnone _]]; [|congruence].
+    rewrite Ht in Ht0. injection Ht0 as <-.
+    destruct Hc as [(X & Hx & ->)|[[Hs ->]|[Hs ->]]]; simpl.
+    + unfold S_NEW, S_BUSYBROADCASTING, S_BUSYFINALIZING, S_RELEASED in *. lia.
+    + right. rewrite lookup_delete, lookup_insert. split; [done|by eexists].
+    + unfold S_FAILED, S_RELEASED in *. lia.
+  - destruct Hc as [(X & Hx & ->)|[[Hs ->]|[Hs ->]]]; simpl;
+      rewrite ?lookup_insert_ne, ?lookup_delete_ne by done; done.
+Qed.
+
+Lemma mint_inv_end_block nl names : forall s s' r, mint_inv s -> end_block nl s names = (s', r) -> mint_inv s'.
+Proof.
+  induction names as [|n rest IH]; intros s s' r Hinv; simpl; [intros [= <- _]; done|].
+  destruct (transition nl s n) as [s1 o1] eqn:H1. destruct (end_block nl s1 rest) as [s2 o2] eqn:H2.
+  intros [= <- _]. eapply IH; [|exact H2]. by eapply mint_inv_transition.
+Qed.
+
+Lemma finalizedb_set_state t X : finalizedb (set_state t X) = finalizedb t.
+Proof. done. Qed.
+Lemma failedb_set_state t X : failedb (set_state t X) = failedb t.
+Proof. done. Qed.
+
+Lemma mint_inv_step E s o s' r : mint_inv s -> step E s o = (s', r) -> mint_inv s'.
+Proof.
+  intros Hinv. destruct o as [snd x|snd x|n l v idx b|f t0 amt|nl names]; simpl.
+  - unfold do_lock. destruct (x_lock (e_tx E x)); [|intros [= <- _]; done].
+    destruct (negb _); [intros [= <- _]; done|].
+    destruct (has (ongoing s) _) eqn:Ho; simpl; [intros [= <- _]; done|].
+    destruct (has (passed s) _) eqn:Hp; simpl; [intros [= <- _]; done|].
+    intros [= <- _]. apply has_false in Ho, Hp. intros m Hm. simpl in *. specialize (Hinv m Hm).
+    destruct (decide (m = x_name (e_tx E x))) as [->|Hne].
+    + destruct Hinv as [(t0 & Ht0 & _)|[_ [? Hsome]]]; congruence.
+    + rewrite lookup_insert_ne by done. done.
+  - unfold do_redeem. destruct (x_redeem (e_tx E x)); [|intros [= <- _]; done].
+    destruct (_ <? 0); [intros [= <- _]; done|]. destruct (_ <? 0); [intros [= <- _]; done|].
+    destruct (has (ongoing s) _) eqn:Ho; simpl; [intros [= <- _]; done|].
+    destruct (has (failed s) _) eqn:Hf; simpl; [intros [= <- _]; done|].
+    destruct (has (passed s) _) eqn:Hp; simpl; [intros [= <- _]; done|].
+    intros [= <- _]. apply has_false in Ho, Hp. intros m Hm. simpl in *. specialize (Hinv m Hm).
+    destruct (decide (m = x_name (e_tx E x))) as [->|Hne].
+    + destruct Hinv as [(t0 & Ht0 & _)|[_ [? Hsome]]]; congruence.
+    + rewrite lookup_insert_ne by done. done.
+  - intros Hstep. apply report_cases in Hstep as [->|(t & t' & Ht & Hfin & Hfail & Hav & _ & Hsh)]; [done|].
+    assert (Hother : forall m, m <> n -> m ∈ minted_names (log s) ->
+              forall o', (exists t0, <[n := o']> (ongoing s) !! m = Some t0 /\ t_state t0 = S_RELEASED /\ finalizedb t0 = true) \/
+                         (<[n := o']> (ongoing s) !! m = None /\ is_Some (passed s !! m))).
+    { intros m Hne Hm o'. rewrite lookup_insert_ne by done. by apply Hinv. }
+    assert (Hn : n ∉ minted_names (log s)).
+    { intros Hm. destruct (Hinv n Hm) as [(t0 & Ht0 & _ & Hf0)|[Hnone _]]; congruence. }
+    inversion Hsh; subst; intros m Hm; simpl in *.
+    + apply elem_of_cons in Hm as [->|Hm].
+      * left. eexists. rewrite lookup_insert. split; [done|]. split; [done|]. by rewrite finalizedb_set_state.
+      * destruct (decide (m = n)) as [->|Hne]; [done|]. by apply Hother.
+    + destruct (decide (m = n)) as [->|Hne]; [done|]. by apply Hother.
+    + destruct (decide (m = n)) as [->|Hne]; [done|]. by apply Hother.
+    + destruct (decide (m = n)) as [->|Hne]; [done|]. by apply Hother.
+    + destruct (decide (m = n)) as [->|Hne]; [done|]. by apply Hother.
+  - unfold do_transfer. repeat case_match; intros [= <- _]; done.
+  - intros Hstep. by eapply mint_inv_end_block.
+Qed.
+
+Lemma mint_inv_run E ops : forall s, mint_inv s -> mint_inv (run E s ops).
+Proof.
+  induction ops as [|o r IH]; intros s Hinv; [done|]. simpl. apply IH.
+  destruct (step E s o) as [s' out] eqn:Hstep. simpl. by eapply mint_inv_step.
+Qed.
+
+Definition mint_once (s : state) : Prop := mint_inv s /\ NoDup (minted_names (log s)).
+
+Lemma mint_once_step E s o s' r : mint_once s -> step E s o = (s', r) -> mint_once s'.
+Proof.
+  intros [Hinv Hnd] Hstep. split; [by eapply mint_inv_step|].
+  destruct o as [snd x|snd x|n l v idx b|f t0 amt|nl names]; simpl in Hstep.
+  - unfold do_lock in Hstep. repeat case_match; injection Hstep as <- _; done.
+  - unfold do_redeem in Hstep. repeat case_match; injection Hstep as <- _; done.
+  - apply report_cases in Hstep as [->|(t & t' & Ht & Hfin & Hfail & Hav & _ & Hsh)]; [done|].
+    inversion Hsh; subst; simpl; try done.
+    apply NoDup_cons. split; [|done].
+    intros Hm. destruct (Hinv n Hm) as [(t0 & Ht0 & _ & Hf0)|[Hnone _]]; congruence.
+  - unfold do_transfer in Hstep. repeat case_match; injection Hstep as <- _; done.
+  - pose proof (end_block_bal_log nl names s) as [_ Hl]. rewrite Hstep in Hl. simpl in Hl. by rewrite Hl.
+Qed.
+
+Theorem mint_at_most_once E ops b : NoDup (minted_names (log (run E (init b) ops))).
+Proof.
+  assert (H : forall ops s, mint_once s -> mint_once (run E s ops)).
+  { clear ops. induction ops as [|o r IH]; intros s Hs; [done|]. simpl. apply IH.
+    destruct (step E s o) as [s' out] eqn:Hstep. simpl. by eapply mint_once_step. }
+  apply H. split; [intros n Hn; simpl in Hn; by apply elem_of_nil in Hn|simpl; constructor].
+Qed.
